@@ -666,6 +666,39 @@ func derefStruct(t types.Type) (types.Type, *types.Struct) {
 	return nil, nil
 }
 
+// ---- reference tags: every object has one struct type for ever. rtag(r) is an uninterpreted, state-
+// independent function from references to type ids; a non-nil pointer of static type *T read from
+// memory, passed in, returned or freshly allocated satisfies rtag(r) == id(T). Quantified pointer
+// variables of specifications are restricted to references of their type, so an invariant
+// `forall n *Node :: allocated(n) ==> ...` says nothing about objects of other types (the allocation
+// map itself is untyped) and nothing about memory that is not allocated yet.
+func RefTag(r *Term) *Term {
+	DeclareFun("rtag", []Sort{SInt}, SInt)
+	return App("rtag", SInt, r)
+}
+
+func tagOfStruct(et types.Type) *Term {
+	k := typeKey(et)
+	h := uint32(2166136261)
+	for i := 0; i < len(k); i++ {
+		h ^= uint32(k[i])
+		h *= 16777619
+	}
+	return IntLit(1 + int64(h%1000003))
+}
+
+// refTagFact: v == nil || rtag(v) == id(T) for a pointer-to-struct value; True otherwise.
+func refTagFact(v Val) *Term {
+	if v.K != KScalar || v.T == nil || v.S.sort != SInt {
+		return True
+	}
+	et, _ := derefStruct(v.T)
+	if et == nil {
+		return True
+	}
+	return Or(Eq(v.S, IntLit(0)), Eq(RefTag(v.S), tagOfStruct(et)))
+}
+
 func shortTypeName(t types.Type) string {
 	s := typeKey(t)
 	s = strings.TrimPrefix(s, "*")
